@@ -135,6 +135,7 @@ type env struct {
 	values  map[types.SiacoinOutputID]types.Currency
 	txns    map[int]*ftxn
 	uniq    int
+	wtx     []types.V2Transaction // transactions broadcast through the wallet (their sets are in the store)
 	gate    *gate // lets a script hold one pool insertion of the wallet (see gated.go)
 	lagging int   // empty blocks the manager has and the wallet's store has not processed yet
 	nextH   int
